@@ -135,3 +135,44 @@ func H_shapes() {
 	diffApplyCheck(root, old, neu)
 	rt.Reach("end")
 }
+
+// prng fills b with a fixed pseudo-random sequence (regime R: concrete content, a few symbolic bytes).
+func prng(b []byte, seed uint32) {
+	x := seed
+	for i := range b {
+		x = x*1103515245 + 12345
+		b[i] = byte(x >> 16)
+	}
+}
+
+// H_real: REGIME R - no constant is scaled (64 KiB blocks, 4 MiB data ops, 32 KiB buffers). Old build: file a of
+// nb blocks + 100 bytes, file b of 1 block + 1 byte (concrete pseudo-random). New build, by shape: 0 two symbolic
+// bytes inserted into a at an unaligned offset and one byte of its tail edited; 1 a = its second block onwards
+// followed by a fresh symbolic byte, b duplicated; 2 a and b swapped, a's first byte symbolic. Diff, apply fresh,
+// compare. Params: nb, shape.
+func H_real() {
+	hlib.SetCopyBuf()
+	B := hlib.B()
+	nb := rt.Param("nb")
+	A, Bc := make([]byte, nb*B+100), make([]byte, B+1)
+	prng(A, 1)
+	prng(Bc, 2)
+	old := &hlib.Build{Files: []hlib.File{{Path: "a", Data: A}, {Path: "b", Data: Bc}}}
+	var neu *hlib.Build
+	switch rt.Param("shape") {
+	case 0:
+		at := B + 4321
+		NA := cat(A[:at], []byte{rt.Byte("ins0"), rt.Byte("ins1")}, A[at:])
+		NA[len(NA)-3] = rt.Byte("tail-edit")
+		neu = &hlib.Build{Files: []hlib.File{{Path: "a", Data: NA}, {Path: "b", Data: append([]byte{}, Bc...)}}}
+	case 1:
+		neu = &hlib.Build{Files: []hlib.File{{Path: "a", Data: cat(A[B:], []byte{rt.Byte("fresh")})}, {Path: "b", Data: append([]byte{}, Bc...)}, {Path: "b2", Data: append([]byte{}, Bc...)}}}
+	case 2:
+		NB := append([]byte{}, A...)
+		NB[0] = rt.Byte("first")
+		neu = &hlib.Build{Files: []hlib.File{{Path: "a", Data: append([]byte{}, Bc...)}, {Path: "b", Data: NB}}}
+	}
+	root := rt.TempDir()
+	diffApplyCheck(root, old, neu)
+	rt.Reach("end")
+}
